@@ -14,7 +14,8 @@ RULE = ("The C01 postcondition (icontract `ensure` on the real find_pattern_in_s
         "misses), every valid hint class incl. index 0, tolerances {0.01,0.05,0.2,0.5}, RNG schedules, searches made "
         "directly (both return shapes), through replace_pattern_in_structure, and again on the same object after it was "
         "edited where it is (translate()+wrap, one atom moved, two atoms' positions swapped, one atom retyped - array "
-        "identities kept). Non-trivial: the case produced at "
+        "identities kept), and once more after a third of the atoms were moved out of the box by lattice "
+        "vectors (atoms stored un-wrapped; only what C01 states about reported matches is judged there). Non-trivial: the case produced at "
         "least one reported match and contained at least one decoy or boundary-straddling copy; distinct by seed.")
 ASSUMPTIONS = ["domain guard per call: cell present, atoms inside the cell, perpendicular widths > diameter + 2*atol; calls outside are counted, not judged",
                "the bound is the code's own acceptance criterion (np.allclose: atol + 1e-5*|x|) relaxed to the optimal translation"]
@@ -108,6 +109,24 @@ def run_case(case, ctx):
         st.count("direct_searches")
         st.count("searches_after_inplace_edit")
         st.seen("inplace_edit", desc[0])
+    # atoms stored un-wrapped: some atoms (copies' atoms and others) are moved by lattice vectors out of the box, the crystal
+    # is the same; whatever is reported must still be distinct atoms of the right elements at lattice images
+    if case["s"] % 2 == 0:
+        cellm = np.array(atoms.cell, float)
+        k = max(1, len(atoms) // 3)
+        for i in rng.choice(len(atoms), size=k, replace=False):
+            atoms.positions[int(i)] += rng.integers(-1, 2, 3).astype(float).dot(cellm)
+        events.seed_all(case["s"] + 77)
+        for shape in (0, 1):
+            try:
+                r = mofun.find_pattern_in_structure(atoms, patoms, atol=atol, return_positions_and_quats=bool(shape))
+                st.count("matches_in_unwrapped_structures", len(r[0]) if shape else len(r))
+            except Exception as e:
+                if type(e).__name__ == "PostBroken":
+                    raise
+                st.count("searches_that_raised.%s" % type(e).__name__)
+            st.count("direct_searches")
+            st.count("searches_of_unwrapped_structures")
     st.seen("pattern_frame", pat.get("frame", "random"))
     st.seen("pattern_class", pat["cls"])
     st.seen("cell_class", case["cell"])
@@ -138,6 +157,8 @@ def requirements(stats, tier):
     if stats.get("matches_after_inplace_edit") < (100 if tier == "quick" else 5000) or stats.nseen("inplace_edit") < 4:
         need.append("searches of an object edited in place since its last search: %d matches, edit kinds %s" %
                     (stats.get("matches_after_inplace_edit"), sorted(stats.sets.get("inplace_edit", []))))
+    if stats.get("matches_in_unwrapped_structures") < (100 if tier == "quick" else 5000):
+        need.append("matches reported for structures with atoms stored outside the cell: %d" % stats.get("matches_in_unwrapped_structures"))
     if stats.nseen("hint_class") < 5:
         need.append("hint classes observed: %s" % sorted(stats.sets.get("hint_class", [])))
     if stats.get("hints_with_index_0") < 20:
